@@ -225,9 +225,22 @@ Open(p) ==
   /\ asked' = <<>> /\ rb' = NoRb /\ est' = p.est /\ gaveup' = {}
 
 FeeTol(f) == 2 + f \div 50
+\* "broadcasts consensus-valid justice transactions": a transaction that spends an output which a transaction
+\* confirmed in an EARLIER block of the best chain has already spent can never confirm on that chain.  (A
+\* competitor confirmed in the newest block does not count: with some delivery styles the node announces the
+\* new tip -- and re-issues its pending claims -- before it is shown the block's transactions.)  Stated for
+\* revoked closes, where every claim of the victim is its own, self-funded transaction; for honest closes such
+\* stale broadcasts are counted by the driver, not judged (see the known finding
+\* late_preimage_claim_bundled_with_settled_htlc).
+NoSpentInput(t, rec) ==
+  (HasCom /\ com.revoked /\ rec.by \in par.live) =>
+     \A k \in 1..Len(rec.ins) :
+        Spent(rec.ins[k]) => (SpenderOf(rec.ins[k]) = t \/ conf[SpenderOf(rec.ins[k])] >= height)
+
 \* a transaction is handed to the broadcaster by `by`
 Bcast(t, rec) ==
   /\ phase' = "op"
+  /\ G6(NoSpentInput(t, rec))
   /\ rb' = IF rec.by = rb.n
              THEN [rb EXCEPT !.cov = @ \cup {rec.ins[k] : k \in {j \in 1..Len(rec.ins) : ~rec.wal[j]}}]
              ELSE rb
@@ -370,10 +383,18 @@ Spendable(n, ds) ==
   /\ handed' = [handed EXCEPT ![n + 1] = @ \cup {d.op : d \in ToSet(ds)}]
   /\ UNCHANGED <<par, height, txs, conf, com, known, bal, starved, asked, est, gaveup, rb>>
 
-\* the node's keys can actually spend what was reported
-Sweep(n, t, rec, good) ==
+\* "... SpendableOutputs events that the node's keys can actually spend": the application hands a set `req` of
+\* reported, mature outputs to the node's OutputSpender (spend_spendable_outputs) -- one descriptor, the
+\* descriptors of one event, or everything it has been handed so far (what OutputSweeper does), from one channel
+\* of the node or from several, in any order.  Every such request is answered by a transaction that spends
+\* exactly the requested outputs, is consensus-valid and final (`good`: the call returned a transaction, the
+\* harness chain verified it, its fee is not negative).  A refusal (Err) of a request for reported outputs has no
+\* matching action: an output that was reported spendable and cannot be swept with the others is not recovered.
+Sweep(n, t, rec, req, good) ==
   /\ phase' = "op"
-  /\ G7(good) /\ G6(good)
+  /\ LET Owed == req # {} /\ req \subseteq handed[n + 1]
+         Good == good /\ ToSet(rec.ins) = req
+     IN G7(Owed => Good) /\ G6(Owed => Good)
   /\ IF good /\ t \notin DOMAIN txs
        THEN txs' = [x \in DOMAIN txs \cup {t} |-> IF x = t THEN rec ELSE txs[x]]
        ELSE UNCHANGED txs
@@ -390,7 +411,9 @@ Checkpoint(h) ==
 Final(f) ==
   /\ phase' = "final"
   \* bounded liveness: under fair mining everything is over within the settle horizon
-  /\ G7((HasCom /\ ~com.revoked) => (f.unswept = 0 /\ Len(f.mempool_left) = 0))
+  \* (other_left: what the monitor of a second closed channel of the node still lists as claimable -- that
+  \*  channel drains to nothing as well)
+  /\ G7((HasCom /\ ~com.revoked) => (f.unswept = 0 /\ Len(f.mempool_left) = 0 /\ f.other_left = 0))
   /\ G6((HasCom /\ com.revoked) => (f.unswept = 0 /\ Len(f.mempool_left) = 0))
   /\ UNCHANGED <<par, height, txs, conf, com, known, handed, bal, starved, asked, est, gaveup>> /\ rb' = NoRb
 
